@@ -163,6 +163,7 @@ package cbreaker
 //@   ensures {C20} writes_nothing_itself: calls(w.WriteHeader) == 0 && calls(w.Write) == 0
 //@   at_call c.next.ServeHTTP {C20} forwarding_writer_same_request: arg1 == req && istype(arg0, "*utils.ProxyWriter") && asref(payload(arg0), "*utils.ProxyWriter").w == w
 //@   ensures recorded_once: calls(Record) == 1 && calls(checkAndSet) == 1 && before(c.next.ServeHTTP, Record) && before(Record, checkAndSet)
+//@   ensures_panic an_aborted_exchange_is_not_a_response: calls(Record) == 0 && calls(checkAndSet) == 0
 
 //@ func (*CircuitBreaker).ServeHTTP
 //@   props C05 C20
@@ -342,7 +343,6 @@ package cbreaker
 //@   requires c != nil
 //@   modifies c.fallback
 //@   ensures rebound: c.fallback == f
-
 
 // ---- construction -----------------------------------------------------------------------------------------------------
 // Options configure periods, side effects, fallback, logging; they are assumed not to touch the state machine, the
